@@ -84,6 +84,13 @@ def quantile_sample(family, n):
         return stats.t(6).ppf(q)
     if family == "gamma3":
         return stats.gamma(3).ppf(q)
+    if family == "logistic":
+        return stats.logistic.ppf(q)
+    if family == "gamma9":
+        return stats.gamma(9).ppf(q)
+    if family == "expgauss":
+        # exponentially modified normal (K = 1.5): moderately skewed with an exponential right tail
+        return stats.exponnorm(1.5).ppf(q)
     if family == "bimodal":
         # 60 % N(0,1) + 40 % N(5, 0.6^2): quantiles of each component, interleaved deterministically
         n1 = int(round(0.6 * n))
